@@ -63,6 +63,7 @@ type runResult struct {
 	init     []initFile
 	red      *reducer
 	seq      []string
+	seqText  []string // the text of the calls of seq
 	inflight []string
 	killed   bool
 	exit     int
@@ -95,7 +96,7 @@ func runTraced(self, dir string, j job) (*runResult, error) {
 	} else if err != nil {
 		return nil, fmt.Errorf("strace: %w", err)
 	}
-	raw, seq, inflight, killed, err := parseStrace(tr)
+	raw, seq, seqText, inflight, killed, err := parseStraceText(tr)
 	if err != nil {
 		return nil, err
 	}
@@ -113,7 +114,7 @@ func runTraced(self, dir string, j job) (*runResult, error) {
 			inflight = append(inflight[:idx], inflight[idx+1:]...)
 		}
 	}
-	res.seq, res.inflight, res.killed = seq, inflight, killed
+	res.seq, res.seqText, res.inflight, res.killed = seq, seqText, inflight, killed
 	for _, rc := range raw {
 		red.feed(rc, &res.acks)
 	}
@@ -458,7 +459,24 @@ func modeKill(self, out string, n int, seed int64, kstep, points int, replay *jo
 				}
 			}
 			off := 1 + offs[i]%step
+			chosen := map[int]bool{}
 			for at := off; at <= K; at += step {
+				chosen[at] = true
+			}
+			// follower scripts: the replacement of the -txid sidecar is one call wide; a kill before every
+			// rename onto / unlink of the sidecar name is always a kill point (seed C03f: unlink, then rename)
+			if base.Script == "follow" || base.Script == "followstart" {
+				for at := 1; at <= K && at <= len(rec.seqText); at++ {
+					t := rec.seqText[at-1]
+					if strings.Contains(t, "-txid\"") && (strings.HasPrefix(rec.seq[at-1], "rename") || strings.HasPrefix(rec.seq[at-1], "unlink")) {
+						chosen[at] = true
+					}
+				}
+			}
+			for at := 1; at <= K; at++ {
+				if !chosen[at] {
+					continue
+				}
 				jb := base
 				jb.At, jb.Sys = at, rec.seq[at-1]
 				for _, s := range rec.seq[:at] {
